@@ -133,6 +133,21 @@ def run(ctx):
         if w < 3:
             ctx.sample({'walk': H.fmt_ops(ops), 'final_state': c.state})
     ctx.stats['walks'] = nwalks
+    # ---- structured competitions through jump-offs, with forbidden probe calls after every height -------------
+    nstruct = 1200 if ctx.quick() else 30000
+    for w in range(nstruct):
+        lines.append('hj\tnew'); expect.append('new'); meta.append(None)
+        def on_call(c, ref, ops_so_far, op):
+            sig = full_sig(c)
+            out, line = judge.call(c, ref, ops_so_far, op)
+            ctx.seen((sig, op))
+            lines.append(H.op_line(op)); expect.append(line); meta.append((ops_so_far, op))
+            return out
+        tie_heavy = (w % 2 == 0)
+        H.gen_competition(rng, athlib, nath=rng.randint(2, 4), nheights=rng.randint(1, 3), jo_heights=4,
+                          att_choice=(lambda g: g.choice(['o', 'o', 'o', 'xo', 'xxx', 'xxx'])) if tie_heavy else None,
+                          on_call=on_call, probes=True)
+    ctx.stats['structured_competitions'] = nstruct
     # ---- correspondence with the Lean model ---------------------------------------------------------
     got = vlib.driver(lines)
     nd = 0; ncmp = 0
